@@ -13,7 +13,7 @@ META = {
     "level": "translation_validation",
     "engine": "E1 artifact-level SMT (relational): consistent valuations of the composed circuit proved identical to parent relation AND renamed child relation AND connection equalities, for all node valuations",
     "hashseeds": {"quick": [0, 1], "thorough": [0, 1, 2, 3, 4, 5, 6, 7]},
-    "shards": {"quick": 8, "thorough": 2},
+    "shards": {"quick": 8, "thorough": 4},
     "bounds": {
         "quick": "histories of <=4 composition calls (add_subcircuit x2 incl. the same child twice, add_blackbox, fill_blackbox in both orders, strip_blackboxes with and without ignored pins) over 2 parents x children {half_adder, full_adder, mux(2), adder(2), constants child, child with a flop blackbox, 6 random DAGs} x 3 seeded connection maps; every step validated; ALL valuations of all nodes",
         "thorough": "40 random children, 6 connection maps, 8 hash seeds",
